@@ -556,6 +556,21 @@ var rR17 = RuleRef{Name: "R17", Doc: "guarded shared state: every access to Chan
 								readsValue = true
 							}
 							if call, ok := v.(*ssa.Call); ok {
+								// a method of TTLInfo that looks at the deadline (info.expired(now)): the comparison lives there
+								if cf := callee(call); cf != nil && cf.Signature.Recv() != nil && namedOf(cf.Signature.Recv().Type()) == "TTLInfo" && cf.Blocks != nil {
+									reads := false
+									for _, cb := range cf.Blocks {
+										for _, ci := range cb.Instrs {
+											if fa, ok := ci.(*ssa.FieldAddr); ok && fieldName(fa) == "value" && namedOf(fa.X.Type()) == "TTLInfo" {
+												reads = true
+											}
+										}
+									}
+									if reads {
+										readsValue = true
+										return true // go on to where the receiver came from
+									}
+								}
 								held, _ := lf.Held(call)
 								if ga := c.keyspaceAccess(call); ga != nil && ga.Map == "ttlKeys" && ga.Method == "Get" {
 									for _, h := range held {
